@@ -1,5 +1,5 @@
 """Single source of truth for MANIFEST.json (bin/mkmanifest)."""
-HOOK_COMMITS = ["1948070", "0be6ff1", "25ace7b", "2d7245c", "1beee83"]
+HOOK_COMMITS = ["1948070", "0be6ff1", "25ace7b", "2d7245c", "1beee83", "9a3e6ee"]
 NOTES = ("All checks: bin/check <id> quick|thorough.  Each run: srcfacts regenerates coq/Src from /repo, make re-checks the "
          "Coq development, the Go harness is rebuilt from /repo with -tags verif, cases are generated from VERIF_SEED, "
          "the implementation and the model are run on them and compared, the Coq specification predicate is evaluated on "
